@@ -22,15 +22,15 @@ func raceAlphabet(name string) (f string, inits [][]tt.Op, ops []tt.Op, post []t
 	tk := func(v int, s string) []int { return append([]int{v}, bytesOf(s)...) }
 	switch name {
 	case "stack":
-		return "stack", [][]tt.Op{{fop("stack", "news")}, {fop("stack", "news"), fop("stack", "push", 1), fop("stack", "push", 2)}},
+		return "stack", [][]tt.Op{{fop("stack", "news")}, {fop("stack", "news"), fop("stack", "push", 1)}, {fop("stack", "news"), fop("stack", "push", 1), fop("stack", "push", 2)}},
 			[]tt.Op{fop("stack", "push", 3), fop("stack", "pop"), fop("stack", "peek"), fop("stack", "search", 1), fop("stack", "size")},
 			[]tt.Op{fop("stack", "push", 5), fop("stack", "size"), fop("stack", "pop")}
 	case "lstack":
-		return "stack", [][]tt.Op{{fop("stack", "newl", 1)}, {fop("stack", "newl", 1), fop("stack", "push", 2), fop("stack", "push", 3)}},
+		return "stack", [][]tt.Op{{fop("stack", "newl", 1)}, {fop("stack", "newl", 1), fop("stack", "push", 2)}, {fop("stack", "newl", 1), fop("stack", "push", 2), fop("stack", "push", 3)}},
 			[]tt.Op{fop("stack", "push", 4), fop("stack", "pop"), fop("stack", "peek"), fop("stack", "search", 1), fop("stack", "size")},
 			[]tt.Op{fop("stack", "push", 5), fop("stack", "size"), fop("stack", "pop")}
 	case "queue":
-		return "queue", [][]tt.Op{{fop("queue", "newq")}, {fop("queue", "newq"), fop("queue", "enq", 1), fop("queue", "enq", 2)}},
+		return "queue", [][]tt.Op{{fop("queue", "newq")}, {fop("queue", "newq"), fop("queue", "enq", 1)}, {fop("queue", "newq"), fop("queue", "enq", 1), fop("queue", "enq", 2)}},
 			[]tt.Op{fop("queue", "enq", 3), fop("queue", "deq"), fop("queue", "peek"), fop("queue", "search", 1), fop("queue", "size"), fop("queue", "clear")},
 			[]tt.Op{fop("queue", "enq", 5), fop("queue", "size"), fop("queue", "deq")}
 	case "lqueue":
@@ -38,12 +38,12 @@ func raceAlphabet(name string) (f string, inits [][]tt.Op, ops []tt.Op, post []t
 			[]tt.Op{fop("queue", "enq", 3), fop("queue", "deq"), fop("queue", "peek"), fop("queue", "search", 1), fop("queue", "size"), fop("queue", "clear")},
 			[]tt.Op{fop("queue", "enq", 5), fop("queue", "size"), fop("queue", "deq")}
 	case "heap":
-		return "heap", [][]tt.Op{{fop("heap", "new", 0)}, {fop("heap", "new", 0), fop("heap", "push", 2), fop("heap", "push", 4), fop("heap", "push", 3)}},
+		return "heap", [][]tt.Op{{fop("heap", "new", 0)}, {fop("heap", "new", 0), fop("heap", "push", 2)}, {fop("heap", "new", 0), fop("heap", "push", 2), fop("heap", "push", 4), fop("heap", "push", 3)}},
 			[]tt.Op{fop("heap", "push", 1), fop("heap", "pop"), fop("heap", "peek"), fop("heap", "size"), fop("heap", "isempty"), fop("heap", "clear"),
 				fop("heap", "getvalues"), fop("heap", "delete", 2), fop("heap", "convert", 1), fop("heap", "merge"), fop("heap", "meld")},
 			[]tt.Op{fop("heap", "push", 5), fop("heap", "size"), fop("heap", "pop")}
 	case "bstree":
-		return "bstree", [][]tt.Op{{fop("bstree", "new", 0)}, {fop("bstree", "new", 0), fop("bstree", "upsert", 2, 1), fop("bstree", "upsert", 1, 2), fop("bstree", "upsert", 3, 3)}},
+		return "bstree", [][]tt.Op{{fop("bstree", "new", 0)}, {fop("bstree", "new", 0), fop("bstree", "upsert", 2, 1)}, {fop("bstree", "new", 0), fop("bstree", "upsert", 2, 1), fop("bstree", "upsert", 1, 2), fop("bstree", "upsert", 3, 3)}},
 			[]tt.Op{fop("bstree", "upsert", 2, 9), fop("bstree", "upsert", 4, 9), fop("bstree", "get", 2), fop("bstree", "delete", 2), fop("bstree", "size"), fop("bstree", "trav")},
 			[]tt.Op{fop("bstree", "upsert", 7, 7), fop("bstree", "size"), fop("bstree", "get", 7)}
 	case "trie":
@@ -226,8 +226,8 @@ func handPrograms() []handProg {
 	var out []handProg
 	_, hi, hops, _ := raceAlphabet("heap")
 	for _, o := range hops {
-		out = append(out, handProg{Ty: "heap", Init: hi[1], Hand: "heap.getvalues", Then: []tt.Op{o}})
-		out = append(out, handProg{Ty: "heap", Init: hi[1], Hand: "heap.getvalues", Then: []tt.Op{o, fop("heap", "push", 0), fop("heap", "pop")}})
+		out = append(out, handProg{Ty: "heap", Init: hi[len(hi)-1], Hand: "heap.getvalues", Then: []tt.Op{o}})
+		out = append(out, handProg{Ty: "heap", Init: hi[len(hi)-1], Hand: "heap.getvalues", Then: []tt.Op{o, fop("heap", "push", 0), fop("heap", "pop")}})
 	}
 	_, ci, cops, _ := raceAlphabet("cache")
 	for _, o := range cops {
